@@ -429,7 +429,7 @@ class BP:
         a = self.binary(lvl + 1)
         while self.peek() in self.LEVELS[lvl] and not (self.peek() in ("|", "+", "-", "*", "/", "%", "<", ">") and self.peek(1) == "="):
             op = self.eat()
-            if op in ("-", "/", "%", "^"):
+            if op in ("/", "%", "^"):
                 self.refuse(f"operator `{op}`")
             b = self.binary(lvl + 1)
             a = ("bin", op, a, b)
@@ -577,6 +577,8 @@ class BT:
         k = e[0]
         if k == "num":
             return str(e[1]), "nat"
+        if k == "boollit":
+            return ("True" if e[1] else "False"), "bool"
         if k == "inum":
             return f"({e[1]} : Int)", "int"
         if k == "sizeof":
@@ -672,6 +674,10 @@ class BT:
             if op in ("==", "!=", "<", "<=", ">", ">=") and aty == "int" and bty == "int":
                 lop = {"==": "=", "!=": "≠", "<": "<", "<=": "≤", ">": ">", ">=": "≥"}[op]
                 return f"({a} {lop} {b})", "bool"
+            if op == "-":
+                if aty == "cptr" and bty == "nat":
+                    return f"(psub {a} {b})", "cptr"
+                self.refuse(f"`-` on {aty} and {bty}")
             if op in ("+", "*", "|"):
                 if aty == "nat" and bty == "nat":
                     lop = {"+": "+", "*": "*", "|": "|||"}[op]
@@ -779,6 +785,10 @@ class BT:
                 self.refuse("call of detach before its definition")
             out.append(f"{ind}let s ← detach s {obj} {vals[0][0]} {vals[1][0]}")
             return "()", "void"
+        if name == "Memory::compare" and tys == ["cptr", "cptr", "nat"]:
+            r = self.fresh()
+            out.append(f"{ind}let {r} ← memCompare s {vals[0][0]} {vals[1][0]} {vals[2][0]}")
+            return r, "int"
         if name == "Memory::copy" and tys == ["cptr", "cptr", "nat"]:
             out.append(f"{ind}let s ← memCopy s {vals[0][0]} {vals[1][0]} {vals[2][0]}")
             return "()", "void"
@@ -851,7 +861,7 @@ class BT:
         return target, init[2][1]
 
     # ---- helper functions of the class (not in the table): inlined at statement level
-    PRIMS = {("detach", 2), ("Memory::copy", 3), ("Atomic::increment", 1), ("Atomic::decrement", 1), ("vsnprintf", 4)}
+    PRIMS = {("detach", 2), ("Memory::copy", 3), ("Memory::compare", 3), ("Atomic::increment", 1), ("Atomic::decrement", 1), ("vsnprintf", 4)}
 
     def helper_call(self, e):
         return e is not None and e[0] == "call" and (e[1], len(e[2])) not in self.PRIMS and "::" not in e[1]
@@ -1059,6 +1069,11 @@ class BT:
                 if ty != "cptr" or objs:
                     self.refuse("this return value")
                 return out + [f"{ind}pure (some {t})"]
+            if ret == "bool" and e is not None and e[0] == "bin" and e[1] in ("&&", "||"):
+                a, b = ("return", e[2]), ("return", e[3])
+                st = ("if", e[2], ("return", e[3]), ("return", ("boollit", False))) if e[1] == "&&" else \
+                     ("if", e[2], ("return", ("boollit", True)), ("return", e[3]))
+                return self.run([st], env, ind, objs, ret)
             if ret in ("nat", "bool"):
                 out = []
                 t, ty = self.ev(e, env, out, ind) if e is not None else (None, None)
@@ -1129,6 +1144,10 @@ BODY_FUNCS = [
     ("clear", r"void\s+clear\s*\(\s*\)", [], "void", "clear()"),
     ("capacity", r"usize\s+capacity\s*\(\s*\)\s*const", [], "nat", "capacity()"),
     ("isEmpty", r"bool\s+isEmpty\s*\(\s*\)\s*const", [], "bool", "isEmpty()"),
+    ("equalS", r"bool\s+operator\s*==\s*\(\s*" + P_STR + r"\s*\)\s*const", ["obj"], "bool", "operator==(const String&)"),
+    ("notEqualS", r"bool\s+operator\s*!=\s*\(\s*" + P_STR + r"\s*\)\s*const", ["obj"], "bool", "operator!=(const String&)"),
+    ("startsWith", r"bool\s+startsWith\s*\(\s*" + P_STR + r"\s*\)\s*const", ["obj"], "bool", "startsWith(const String&)"),
+    ("endsWith", r"bool\s+endsWith\s*\(\s*" + P_STR + r"\s*\)\s*const", ["obj"], "bool", "endsWith(const String&)"),
     ("findC", r"const\s+char\s*\*\s*find\s*\(\s*char\s+(\w+)\s*\)\s*const", ["nat"], "ptr", "find(char)"),
     ("appendS", r"String\s*&\s*append\s*\(\s*" + P_STR + r"\s*\)", ["obj"], "self", "append(const String&)"),
     ("appendP", r"String\s*&\s*append\s*\(\s*const\s+char\s*\*\s*(\w+)\s*,\s*usize\s+(\w+)\s*\)", ["cptr", "nat"], "self", "append(const char*, usize)"),
